@@ -248,6 +248,7 @@ def emit(f):
               "de_row_pops", "de_row_complete_flag",
               "task_system_self_send", "task_system_views_send", "task_system_res_send", "task_system_entry_send",
               "task_parsystem_self_send", "task_parsystem_views_send", "task_parsystem_res_send", "task_parsystem_entry_send",
+              "de_column_returns_owned_vec",
               "clear_sets_length_first", "adopt_requires_no_allocation",
               "remove_defers_drops", "remove_decrements_length_first", "remove_frees_identifier_first",
               "clone_from_hides_rows_first", "clone_from_writes_back_on_unwind", "clone_from_identifier_column_written_back",
@@ -381,6 +382,25 @@ def de_row_facts():
     wired = re.search(r"entity_identifiers,components,length,complete,?\}", n2) is not None
     loop = re.search(r"foriin0\.\.self\.0\.length\{letmutrow_complete=false;letresult=seq\.next_element_seed\(unsafe\{DeserializeRow::new\(self\.0\.identifier\.as_ref\(\),&mutentity_identifiers,&mutcomponents,vec_length,&mutrow_complete,?\)\},?\);ifletErr\(error\)=result\{ifrow_complete\{vec_length\+=1;\}", n2) is not None
     f["de_row_complete_flag"] = sets and wired and loop
+    # --- column-wise (finding F14): does the column visitor hand back an owned Vec (dropped with a late error
+    # of the deserializer) or raw parts (plain data)?
+    n3 = norm(strip_comments(read("src/archetype/impl_serde.rs")))
+    m = re.search(r"DeserializeSeed<'de>forDeserializeColumn<'de,C>whereC:Component\+Deserialize<'de>,?\{typeValue=([^;]*);", n3)
+    if not m:
+        raise ParseFailure("archetype/impl_serde.rs: DeserializeColumn::Value")
+    owned = m.group(1) == "Vec<C>"
+    raw = m.group(1) == "(*mutC,usize)"
+    if owned == raw:
+        raise ParseFailure("archetype/impl_serde.rs: DeserializeColumn::Value is of neither known form: " + m.group(1))
+    if owned:
+        # the visitor returns the Vec it filled, and both callers turn what arrived into raw parts
+        ok_v = re.search(r"letmutv=Vec::with_capacity\(self\.0\.length\);foriin0\.\.self\.0\.length\{v\.push\(seq\.next_element\(\)\?\.ok_or_else\(\|\|de::Error::invalid_length\(i,&self\)\)\?,?\);\}Ok\(v\)", n3) is not None
+        ok_ids = re.search(r"letmutentity_identifiers=ManuallyDrop::new\(seq\.next_element_seed\(DeserializeColumn::new\(self\.0\.length\)\)\?\.ok_or_else\(\|\|de::Error::invalid_length\(0,&self\)\)\?,?\);letentity_identifiers=\(entity_identifiers\.as_mut_ptr\(\),entity_identifiers\.capacity\(\),?\);", n3) is not None
+        n4 = norm(strip_comments(src))
+        ok_cols = re.search(r"letmutcomponent_column=ManuallyDrop::new\(seq\.next_element_seed\(DeserializeColumn::<C>::new\(length\)\)\?\.ok_or_else\(.*?\)\?\);components\.push\(\(component_column\.as_mut_ptr\(\)\.cast::<u8>\(\),component_column\.capacity\(\),?\)\);", n4) is not None
+        if not (ok_v and ok_ids and ok_cols):
+            raise ParseFailure("column-wise deserialization: the owned column is not filled / adopted as expected (%s %s %s)" % (ok_v, ok_ids, ok_cols))
+    f["de_column_returns_owned_vec"] = owned
     return f
 
 
